@@ -12,6 +12,7 @@ import (
 	"testing"
 	"time"
 
+	"github.com/andydunstall/piko/pkg/auth"
 	"github.com/andydunstall/piko/server/config"
 
 	"verif/harness/vlib"
@@ -40,7 +41,7 @@ func statusEndpoints(n *TNode) (map[string]int, error) {
 }
 
 func TestC16(t *testing.T) {
-	vlib.SetRule("C16", "TestC16", "1-2 real nodes with an HMAC-protected upstream port; 2-6 upstream listeners on shared and distinct endpoints connect through cuttable relays and end in a drawn order by: client Shutdown, go-away (optionally hit by a request, the proxy's ErrGone removal) then Shutdown, abrupt relay cut (FIN or RST), server-initiated shedding (Rebalance), optionally with a slow request in flight; then 0-2 listeners with a token expiring 1.2-2.2 s ahead (disconnect-on-expiry enabled or disabled per cluster); finally node shutdown (in a third of the cases with a 1 s grace period while a client that sent half a request occupies the upstream port); oracle at every quiescent point: status API registry == cluster endpoints == model of open connections and open-session count == model, everything empty/0 after shutdown; expiry: still registered 300 ms before exp, deregistered in [exp, exp+deadline], or still registered 1 s after exp when disabled; in-flight requests end in 200 or a gateway error; non-trivial = two different ending modes hit the same endpoint while a sibling stays connected, or an ending with a request in flight")
+	vlib.SetRule("C16", "TestC16", "1-2 real nodes with an HMAC-protected upstream port (in a third of the cases multi-tenant, every listener connecting as the tenant); 2-6 upstream listeners on shared and distinct endpoints connect through cuttable relays and end in a drawn order by: client Shutdown, go-away (optionally hit by a request, the proxy's ErrGone removal) then Shutdown, abrupt relay cut (FIN or RST), server-initiated shedding (Rebalance), optionally with a slow request in flight; then 0-2 listeners with a token expiring 1.2-2.2 s ahead (disconnect-on-expiry enabled or disabled per cluster); finally node shutdown (in a third of the cases with a 1 s grace period while a client that sent half a request occupies the upstream port); oracle at every quiescent point: status API registry == cluster endpoints == model of open connections and open-session count == model, everything empty/0 after shutdown; expiry: still registered 300 ms before exp, deregistered in [exp, exp+deadline], or still registered 1 s after exp when disabled; in-flight requests end in 200 or a gateway error; non-trivial = two different ending modes hit the same endpoint while a sibling stays connected, or an ending with a request in flight")
 	vlib.Run(t, "C16", func(c *vlib.Case) {
 		k := TestKeys()
 		N := c.Int("nodes", 1, 2)
@@ -49,9 +50,20 @@ func TestC16(t *testing.T) {
 		// occupies their upstream port: the HTTP drain then runs into the (short) grace
 		// period, and the upstream connections must be released all the same
 		stalled := c.Chance("stalledConnAtShutdown", 1, 3)
+		// a third of the clusters are multi-tenant: every listener then connects as
+		// tenant t0 with a token signed by that tenant's key
+		useTenants := c.Chance("tenants", 1, 3)
+		signKey, tenantID := k.HMAC, ""
+		if useTenants {
+			signKey, tenantID = []byte("tenant-t0-key-0123456789abcdef0123456"), "t0"
+			c.Class("multi-tenant-upstream-port")
+		}
 		cl, err := StartCluster(N, false, func(i int, conf *config.Config) {
 			if stalled {
 				conf.GracePeriod = time.Second
+			}
+			if useTenants {
+				conf.Upstream.Tenants = []config.TenantConfig{{ID: "t0", Auth: auth.Config{HMACSecretKey: string(signKey), DisableDisconnectOnExpiry: disableExpiry}}}
 			}
 			conf.Upstream.Auth.HMACSecretKey = string(k.HMAC)
 			conf.Upstream.Auth.DisableDisconnectOnExpiry = disableExpiry
@@ -79,8 +91,8 @@ func TestC16(t *testing.T) {
 			if err != nil {
 				c.Harnessf("relay: %v", err)
 			}
-			tok := MintHS(k.HMAC, nil, exp)
-			u, err := ConnectUpstream(context.Background(), node, fmt.Sprintf("u%d", id), ep, "sdk-http", UpstreamOpts{URL: "http://" + r.Addr(), Token: tok})
+			tok := MintHS(signKey, nil, exp)
+			u, err := ConnectUpstream(context.Background(), node, fmt.Sprintf("u%d", id), ep, "sdk-http", UpstreamOpts{URL: "http://" + r.Addr(), Token: tok, TenantID: tenantID})
 			if err != nil {
 				c.Fatalf("C16: upstream u%d could not connect: %v", id, err)
 			}
